@@ -157,6 +157,9 @@ def run_job(job, tier, seed, outdir, deadline):
         args += job.get("thorough_args", [])
     else:
         args += job.get("quick_args", [])
+    jb = job.get("budget_thorough" if tier == "thorough" else "budget_quick")
+    if jb:
+        args += ["--budget", str(jb)]     # the explorer stops by itself at this wall-clock budget and reports the bound it completed
     env = dict(os.environ)
     env.update(job.get("env", {}))
     env["VERIF_SEED"] = str(seed)
